@@ -19,6 +19,17 @@ import (
 
 func init() {
 	register("P9s", "every slice expression and every index with a non-trivial bound in hand-written code (everything but the ragel/goyacc/stringer tables) is within bounds on every path (0 <= lo <= hi <= len); in the scanner by the documented contract of package regexp applied to the pattern the code compiles", func(p *an.Prog, r *an.Result) { runP9s(p, r, nil) })
+	register("P9e", "the part of P9s that covers packages render and parser - where output is written and errors are located: no bound can fail while a failure is being reported", func(p *an.Prog, r *an.Result) {
+		runP9s(p, r, func(fn *ssa.Function) bool {
+			o := an.Outermost(fn)
+			if o.Pkg == nil {
+				return false
+			}
+			rp := an.RelPkg(o.Pkg.Pkg.Path())
+			return rp == "render" || rp == "parser"
+		})
+		r.Floor("bound obligations", 40)
+	})
 	register("P9t", "the tokenizer part of P9s: every index into a match, into the matched text and into the delimiter list, and every slice of the input, is within bounds for every delimiter configuration", func(p *an.Prog, r *an.Result) {
 		scan := p.Func("parser.Scan")
 		if scan == nil {
@@ -1261,37 +1272,7 @@ func mapKeysOf(p *an.Prog, x ssa.Value) ssa.Value {
 		return c.Args[0]
 	}
 	callee := c.StaticCallee()
-	if callee == nil || callee.Blocks == nil || !p.InModule(callee) || len(callee.Params) == 0 {
-		return nil
-	}
-	ok := true
-	n := 0
-	an.EachInstr(callee, func(in ssa.Instruction) {
-		ret, isRet := in.(*ssa.Return)
-		if !isRet {
-			return
-		}
-		n++
-		res := resultsOf(ret)
-		if len(res) != 1 {
-			ok = false
-			return
-		}
-		v := an.Deref(res[0])
-		if u, isU := v.(*ssa.UnOp); isU {
-			// a captured variable with one assignment
-			if al, isAl := u.X.(*ssa.Alloc); isAl {
-				if st := an.Stores(al); len(st) == 1 {
-					v = st[0]
-				}
-			}
-		}
-		kc := an.CallOf(v)
-		if kc == nil || an.CallName(kc) != "(reflect.Value).MapKeys" || kc.Args[0] != ssa.Value(callee.Params[0]) {
-			ok = false
-		}
-	})
-	if !ok || n == 0 {
+	if !returnsKeyListOf(p, callee) {
 		return nil
 	}
 	return c.Args[0]
